@@ -155,6 +155,61 @@ def one(dir_, layout, fault, shape, pos, rng):
                 obs["delivered"] = "exact"
             else:
                 obs["delivered"] = "altered"
+        elif dir_ == "progress":
+            # progressive result: the fault hits the progressive YIELD -> RESULT only, the final result travels untouched
+            def epp(*a, details=None, **kw):
+                got.setdefault("calls", []).append((list(a), dict(kw)))
+                details.progress(*args, **kwargs)
+                return CallResult("final", fin=1)
+            B.register(epp, uri, options=RegisterOptions(details_arg="details"))
+            fw.settle()
+            B.onMessage(message.Registered(tb.sent[-1][0].request, 200))
+            fw.settle()
+            del tb.sent[:]
+
+            def onp(*a, **kw):
+                got.setdefault("prog", []).append((list(a), dict(kw)))
+            fut = A.call(uri, 1, options=CallOptions(on_progress=onp))
+            res = {}
+            txaio.add_callbacks(fut, lambda r: res.setdefault("ok", r), lambda f: res.setdefault("err", f.value if hasattr(f, "value") else f))
+            fw.settle()
+            cm = ta.sent[-1][0]
+            if cm.payload is not None:
+                inv = message.Invocation(900, 200, payload=cm.payload, enc_algo=cm.enc_algo, enc_key=cm.enc_key, enc_serializer=cm.enc_serializer, receive_progress=True)
+            else:
+                inv = message.Invocation(900, 200, args=cm.args, kwargs=cm.kwargs, receive_progress=True)
+            B.onMessage(inv)
+            fw.settle()
+            ys = [m for m, _ in tb.sent if isinstance(m, message.Yield)]
+            if len(ys) != 2 or not ys[0].progress or ys[1].progress:
+                obs["esc"] = "yields:%r" % [(type(m).__name__, getattr(m, "progress", None)) for m, _ in tb.sent]
+            else:
+                obs["encOnWire"] = all(m.enc_algo == "cryptobox" and m.payload is not None for m in ys + [cm])
+                obs["clearOnWire"] = any(has_clear(m) or m.payload is None for m in ys + [cm])
+                good = A._payload_codec
+                for k, rm in enumerate(ys):
+                    rp = rm.payload
+                    if k == 0 and rp is not None:
+                        if fault == "tamper":
+                            rp = tamper(rp, pos)
+                        if fault == "wrongkey":
+                            kx, _ = keyrings(layout, "none", rng)
+                            A.set_payload_codec(kx)
+                    fwd = message.Result(cm.request, payload=rp, enc_algo=rm.enc_algo, enc_key=rm.enc_key, enc_serializer=rm.enc_serializer, progress=(k == 0)) \
+                        if rp is not None else message.Result(cm.request, args=rm.args, kwargs=rm.kwargs, progress=(k == 0))
+                    A.onMessage(fwd)
+                    fw.settle()
+                    A.set_payload_codec(good)
+                pg = got.get("prog", [])
+                obs["delivered"] = "none" if not pg else ("exact" if pg == [(args, kwargs)] else "altered")
+                if "ok" in res:
+                    r = res["ok"]
+                    obs["call"] = "ok" if isinstance(r, CallResult) and (list(r.results), dict(r.kwresults)) == (["final"], {"fin": 1}) else "altered"
+                elif "err" in res:
+                    e = res["err"]
+                    obs["call"] = "encerror" if isinstance(e, ApplicationError) and e.error.startswith("wamp.error.encryption") else "othererror:" + type(e).__name__
+                else:
+                    obs["call"] = "pending"
         else:
             def ep(*a, **kw):
                 got.setdefault("calls", []).append((list(a), dict(kw)))
@@ -266,10 +321,10 @@ def main():
     inp = driver_in()
     rng = random.Random(int(os.environ.get("VERIF_SEED", "0")) * 17 + 3)
     traces = []
-    for dir_ in ("publish", "call", "result", "error"):
+    for dir_ in ("publish", "call", "result", "error", "progress"):
         for layout in ("default", "prefix", "split", "nokey"):
             for fault in ("none", "tamper", "wrongkey", "uriswap"):
-                if fault == "uriswap" and dir_ == "result":
+                if fault == "uriswap" and dir_ in ("result", "progress"):
                     continue        # a RESULT carries no URI: its envelope is the pending call itself
                 for si, shape in enumerate(SHAPES):
                     positions = [0]
